@@ -260,6 +260,7 @@ def record_distribution(ctx, cases, infos):
         ctx.hist("form", inf["form"])
         ctx.hist("rhs_depth", inf["depth"])
         ctx.hist("target", inf["target_kind"] + ":" + ("+".join(inf["target_ops"]) or "container"))
+        ctx.hist("target_proxy_nesting", len(inf["target_ops"]))
         if inf["aliased"]:
             ctx.count("statements_with_target_on_rhs")
         for o in set(inf["ops"]):
